@@ -89,9 +89,10 @@ def _shard_main(mod, tier, seed, shard, outdir, budget, known):
             kn = [v for v in res.get("violations", []) if key_matches(known, v["key"])]
             record(dict(case=case, ck=ck, nontrivial=bool(res.get("nontrivial")), dkey=res.get("dkey"),
                         classes=res.get("classes", []), sample=res.get("sample"),
-                        inconclusive=res.get("inconclusive"), violations=viol, known=kn, t=round(now, 2)))
+                        inconclusive=res.get("inconclusive"), violations=viol, known=kn, t=round(now, 2),
+                        shrink=state["fail_t"] is not None))
         viol = [v for v in res.get("violations", []) if not key_matches(known, v["key"])]
-        if viol:
+        if viol and not budget.get("collect"):
             if state["fail_t"] is None:
                 state["fail_t"] = time.time() - t0
             state["last_fail"] = dict(case=case, violations=viol)
@@ -156,6 +157,7 @@ def main(mod, argv=None):
     ap.add_argument("--shards", type=int, default=None)
     ap.add_argument("--seconds", type=float, default=None)
     ap.add_argument("--examples", type=int, default=None)
+    ap.add_argument("--collect", action="store_true", help="triage mode: do not stop/shrink at violations, list all distinct keys")
     a = ap.parse_args(argv)
     tier = a.tier if a.tier in ("quick", "thorough") else "quick"
     pid = mod.ID
@@ -193,6 +195,8 @@ def main(mod, argv=None):
         budget["seconds"] = a.seconds
     if a.examples:
         budget["examples"] = a.examples
+    if a.collect:
+        budget["collect"] = True
     import svt
     outdir = svt.mkwork("eng-" + pid)
     violations = []     # (case, [viol])
@@ -242,6 +246,7 @@ def main(mod, argv=None):
     inconcl = []
     build_failed = None
     engine_errors = []
+    collected = {}
     for f in sorted(os.listdir(outdir)):
         if not f.endswith(".jsonl"):
             continue
@@ -257,6 +262,9 @@ def main(mod, argv=None):
                 engine_errors.append(r["engine_error"])
                 continue
             evals += 1
+            if r.get("shrink"):
+                classes["shrink_phase_runs"] = classes.get("shrink_phase_runs", 0) + 1
+                continue
             if r.get("inconclusive"):
                 inconcl.append(r["inconclusive"][:300])
                 classes["inconclusive"] = classes.get("inconclusive", 0) + 1
@@ -269,6 +277,10 @@ def main(mod, argv=None):
                 classes[c] = classes.get(c, 0) + 1
             for v in r.get("known", []):
                 known_seen.setdefault(v["key"], v)
+            if budget.get("collect"):
+                for v in r.get("violations", []):
+                    ent = collected.setdefault(v["key"], dict(n=0, what=v.get("what"), case=r.get("case")))
+                    ent["n"] += 1
     if build_failed:
         print("BUILD-FAILED", build_failed)
         return 2
@@ -319,6 +331,12 @@ def main(mod, argv=None):
     shutil.rmtree(outdir, ignore_errors=True)
     print("%s tier=%s seed=%d evaluations=%d distinct_nontrivial=%d inconclusive=%d wall=%.0fs classes=%s" %
           (pid, tier, a.seed, evals, len(nontrivial), len(inconcl), wall, json.dumps(classes, sort_keys=True)[:1500]))
+    if budget.get("collect"):
+        for k, ent in sorted(collected.items()):
+            print("COLLECTED %s n=%d :: %s\n   case=%s" % (k, ent["n"], (ent["what"] or "")[:300], json.dumps(ent["case"])))
+        for x in inconcl[:40]:
+            print("INCONCLUSIVE ::", x[:200])
+        return 0
     if out_viol:
         for case, cv in out_viol:
             p = write_replay(pid, case, cv)
